@@ -1,6 +1,8 @@
 """C08 - UniformReservoirStorage keeps a uniformly random k-subset (exact binomial cell tests over many
 independent executions; reads only get_data())."""
 import collections
+import copy
+import pickle
 import itertools
 import math
 import random
@@ -68,6 +70,7 @@ def sample(make, k, snaps, runs, hrnd, interference=False):
     buck = {n: collections.Counter() for n in snaps}
     nmax = max(snaps)
     snapset = set(snaps)
+    ckpts = {max(1, nmax // 3), max(2, (2 * nmax) // 3), min(nmax - 1, 4)}
     for _ in range(runs):
         st = make()
         upd = st.update if _ % 2 else None             # every other execution calls a bound method taken BEFORE the first update
@@ -83,6 +86,13 @@ def sample(make, k, snaps, runs, hrnd, interference=False):
                 upd(obs)
             else:
                 st.update(obs)
+            if _ % 7 == 5 and i % 5 == 4:
+                # the caller reorders the list it was handed (get_data() returns the live list; which slot holds which observation
+                # carries no meaning for a uniform reservoir)
+                st.get_data()[0].sort(key=lambda o_: o_["t"])
+            if _ % 5 == 3 and i in ckpts:       # checkpointing: the stream continues on a deep copy / pickle round trip of the storage
+                st = copy.deepcopy(st) if (i + _) % 2 else pickle.loads(pickle.dumps(st))
+                upd = st.update if upd is not None else None
             n = i + 1
             if n in snapset:
                 xs = list(st.get_data()[0])
